@@ -223,9 +223,10 @@ def _build_store(case):
     if case["has_pos"]:
         # (a platform may report only one of the two: pos_only = "lat" / "lon")
         if case.get("pos_only") != "lon":
-            cols["lat"] = np.full(n, 10.25)
+            # (a fixed platform's latitude may be a whole number held in an integer column)
+            cols["lat"] = np.full(n, 10, dtype="int64") if case.get("lat_int") else np.full(n, 10.25)
         if case.get("pos_only") != "lat":
-            cols["lon"] = np.arange(n, dtype="float64") - 3.0
+            cols["lon"] = np.arange(n, dtype="float64") - 3.25
     for sid, vals in case["streams"].items():
         cols[sid] = core.to_float_array([None if v is None else F(v) for v in vals])
     df = pd.DataFrame(cols)
@@ -343,9 +344,9 @@ def _pipeline_check(case, df):
         if case["has_z"]:
             src["z"] = [0.5 * i for i in range(n)]
         if case["has_pos"] and case.get("pos_only") != "lon":
-            src["lat"] = [10.25] * n
+            src["lat"] = [10.0 if case.get("lat_int") else 10.25] * n
         if case["has_pos"] and case.get("pos_only") != "lat":
-            src["lon"] = [float(i) - 3.0 for i in range(n)]
+            src["lon"] = [float(i) - 3.25 for i in range(n)]
         for ax, vals in src.items():
             if ax in df and ax not in names and ax not in case["streams"]:
                 col = df[ax].tolist()
@@ -653,6 +654,8 @@ def gen_store(tier, rng):
     for c in cases:
         if c["mode"] == "pipe" and c.get("has_pos") and rng.random() < 0.2:
             c["pos_only"] = rng.choice(["lat", "lon"])
+        elif c["mode"] == "pipe" and c.get("has_pos") and rng.random() < 0.25:
+            c["lat_int"] = True
     for c in cases:
         if c.get("domain", True) and rng.random() < 0.25:
             c["presave"] = rng.choice(["default", "data", "noaxes"])
